@@ -21,6 +21,9 @@
 #ifndef VP_B1
 #define VP_B1 2
 #endif
+#ifndef VP_L2LEVEL
+#define VP_L2LEVEL 2   /* the level that holds the third group of files (2 .. LDB_NUM_LEVELS-1) */
+#endif
 #ifndef VP_B2
 #define VP_B2 1
 #endif
@@ -120,6 +123,7 @@ static uint8_t vp_cp[VP_KLEN];
 void
 harness(void) {
   static const int nbase[VP_NL] = { VP_B0, VP_B1, VP_B2 };
+  static const int lvlmap[VP_NL] = { 0, 1, VP_L2LEVEL };
   static ldb_versions_t vset, vset2;
   static ldb_comparator_t icmp;
   static long vp_log_obj;
@@ -140,7 +144,7 @@ harness(void) {
     for (i = 0; i < nbase[level]; i++) {
       vp_file_t *f = &vp_f[n];
       ldb_filemeta_t *m = ldb_filemeta_create();
-      f->level = level;
+      f->level = lvlmap[level];
       f->number = rep_num(2 * n + VP_ROT);
       f->size = rep_num(2 * n + 1 + VP_ROT);
       vp_fill(f->sk, VP_KLEN);
@@ -151,7 +155,7 @@ harness(void) {
       m->file_size = f->size;
       ldb_buffer_set(&m->smallest, f->sk, VP_KLEN);
       ldb_buffer_set(&m->largest, f->lk, VP_KLEN);
-      ldb_vector_push(&base->files[level], m);
+      ldb_vector_push(&base->files[lvlmap[level]], m);
       if (i > 0) {
         /* sorted by (smallest, number); levels >= 1 disjoint */
         int r = ref_ikey_cmp(vp_f[n - 1].sk, f->sk);
@@ -187,7 +191,7 @@ harness(void) {
   n = 0;
   for (level = 0; level < LDB_NUM_LEVELS; level++) {
     const ldb_vector_t *out = &v2->files[level];
-    int want = level < VP_NL ? nbase[level] : 0;
+    int want = level == 0 ? nbase[0] : (level == 1 ? nbase[1] : (level == VP_L2LEVEL ? nbase[2] : 0));
     VP_ASSERT(out->length == (size_t)want, "replayed level has the same number of files");
     for (i = 0; i < want; i++) {
       if ((size_t)i < out->length) {
